@@ -2,16 +2,12 @@
 // stubs: formatting is not the subject; allocation requests are checked against the input size
 // ---------------------------------------------------------------------------------------------
 
-/// length of the peer-supplied buffer of the running harness (set before decoding)
-static mut INPUT_LEN: usize = 0;
-/// slack allowed on top of the input length for a pre-allocation request (elements)
-const PREALLOC_SLACK: usize = 4096;
-
 fn stub_format(_args: core::fmt::Arguments<'_>) -> String {
     String::new()
 }
 
 /// `Vec::with_capacity(n)` reached from a decoder: the request must be related to the input size
+/// ("never allocates memory unrelated to the input size"): n <= input length + PREALLOC_SLACK.
 fn stub_vec_with_capacity<T>(n: usize) -> Vec<T> {
     let input = unsafe { INPUT_LEN };
     assert!(n <= input + PREALLOC_SLACK, "C09-ALLOC: Vec::with_capacity request unrelated to input size");
@@ -20,31 +16,504 @@ fn stub_vec_with_capacity<T>(n: usize) -> Vec<T> {
     // `with_capacity_in` does not go through `with_capacity`, so the stub does not recurse
     Vec::with_capacity_in(n, std::alloc::Global)
 }
-fn stub_hashmap_with_capacity<K, V>(n: usize) -> HashMap<K, V> {
-    let input = unsafe { INPUT_LEN };
-    assert!(n <= input + PREALLOC_SLACK, "C09-ALLOC: HashMap::with_capacity request unrelated to input size");
-    kani::assume(n <= input + PREALLOC_SLACK);
-    HashMap::new()
+
+fn set_input_len(n: usize) {
+    unsafe {
+        INPUT_LEN = n;
+        crate::collections::PREALLOC_LIMIT = n + PREALLOC_SLACK;
+    }
 }
 
+type LE = speedy::LittleEndian;
+
+/// decoding a fully symbolic buffer of fixed length must RETURN (Ok or Err): no panic, no
+/// arithmetic overflow, no capacity overflow, no allocation request unrelated to the input
 macro_rules! decode_total {
-    ($name:ident, $ty:ty, $len:expr, $unwind:expr $(, prefix = [$($p:expr),*])?) => {
+    ($name:ident, $ty:ty, $len:expr, $unwind:expr $(, prefix = [$($p:expr),*])? $(, check = $chk:expr)?) => {
         #[kani::proof]
         #[kani::unwind($unwind)]
         #[kani::stub(alloc::fmt::format, stub_format)]
         #[kani::stub(std::vec::Vec::with_capacity, stub_vec_with_capacity)]
         fn $name() {
             let mut buf: [u8; $len] = kani::any();
-            $( let prefix = [$($p),*]; let mut i = 0; while i < prefix.len() { buf[i] = prefix[i]; i += 1; } )?
-            unsafe { INPUT_LEN = $len };
-            // must return: Ok or Err, never panic / abort / overflow
-            let r = <$ty as Readable<speedy::LittleEndian>>::read_from_buffer(&buf);
+            $( let prefix: &[u8] = &[$($p),*]; let mut i = 0; while i < prefix.len() { buf[i] = prefix[i]; i += 1; } )?
+            set_input_len($len);
+            let r = <$ty as Readable<LE>>::read_from_buffer(&buf);
             kani::cover!(r.is_ok(), "some input decodes");
             kani::cover!(r.is_err(), "some input is rejected");
+            $( if let Ok(v) = &r { let f: fn(&$ty) = $chk; f(v); } )?
             core::mem::forget(r);
         }
     };
 }
 
-decode_total!(c09_need_decode_len9, SyncNeedV1, 9, 4);
-decode_total!(c09_need_decode_len17, SyncNeedV1, 17, 4);
+// ---- SyncNeedV1 (hand-written) -------------------------------------------------------------
+decode_total!(c09_need_total_l01, SyncNeedV1, 1, 4);
+decode_total!(c09_need_total_l09, SyncNeedV1, 9, 4);
+decode_total!(c09_need_total_l17, SyncNeedV1, 17, 4);
+decode_total!(c09_need_total_l33, SyncNeedV1, 33, 4);
+decode_total!(c09_need_total_l49, SyncNeedV1, 49, 5);
+
+// ---- Changeset (hand-written) --------------------------------------------------------------
+decode_total!(c09_changeset_total_l01, Changeset, 1, 4);
+decode_total!(c09_changeset_total_l09, Changeset, 9, 4);
+decode_total!(c09_changeset_total_l18, Changeset, 18, 4);
+decode_total!(c09_changeset_total_l26, Changeset, 26, 4);
+decode_total!(c09_changeset_total_l33, Changeset, 33, 4);
+// Full variant: tag fixed to 1, everything else symbolic (lands in the derived Vec<Change> reader)
+decode_total!(c09_changeset_full_total_l45, Changeset, 45, 4, prefix = [1]);
+
+// ---- SqliteValue (hand-written; decoded text must be valid UTF-8) ---------------------------
+/// exact UTF-8 validity (RFC 3629 / Unicode table 3-7) as a small DFA; std's validator uses
+/// word-at-a-time loops that CBMC cannot digest on symbolic bytes
+fn utf8_ok(b: &[u8]) -> bool {
+    let mut i = 0;
+    let n = b.len();
+    while i < n {
+        let c = b[i];
+        let (need, lo, hi) = if c < 0x80 {
+            (0usize, 0x80u8, 0xBFu8)
+        } else if c >= 0xC2 && c <= 0xDF {
+            (1, 0x80, 0xBF)
+        } else if c == 0xE0 {
+            (2, 0xA0, 0xBF)
+        } else if (c >= 0xE1 && c <= 0xEC) || c == 0xEE || c == 0xEF {
+            (2, 0x80, 0xBF)
+        } else if c == 0xED {
+            (2, 0x80, 0x9F)
+        } else if c == 0xF0 {
+            (3, 0x90, 0xBF)
+        } else if c >= 0xF1 && c <= 0xF3 {
+            (3, 0x80, 0xBF)
+        } else if c == 0xF4 {
+            (3, 0x80, 0x8F)
+        } else {
+            return false;
+        };
+        if i + need >= n + (need == 0) as usize {
+            return false;
+        }
+        let mut k = 1;
+        while k <= need {
+            let d = b[i + k];
+            let (l, h) = if k == 1 { (lo, hi) } else { (0x80, 0xBF) };
+            if d < l || d > h {
+                return false;
+            }
+            k += 1;
+        }
+        i += need + 1;
+    }
+    true
+}
+fn text_is_utf8(v: &SqliteValue) {
+    if let SqliteValue::Text(s) = v {
+        assert!(utf8_ok(s.as_bytes()), "C09-UTF8: decoded text is not valid UTF-8");
+    }
+}
+decode_total!(c09_value_total_l01, SqliteValue, 1, 4, check = text_is_utf8);
+decode_total!(c09_value_total_l09, SqliteValue, 9, 6);
+decode_total!(c09_value_text_total_l07, SqliteValue, 7, 6, prefix = [3], check = text_is_utf8);
+decode_total!(c09_value_blob_total_l08, SqliteValue, 8, 6, prefix = [4]);
+
+// ---- names, ids, timestamps ----------------------------------------------------------------
+// TableName / ColumnName read a `&str` through speedy, which validates UTF-8 itself (library code)
+decode_total!(c09_tablename_total_l05, TableName, 5, 6);
+decode_total!(c09_actor_total_l16, ActorId, 16, 18);
+decode_total!(c09_actor_total_l15, ActorId, 15, 18);
+decode_total!(c09_timestamp_total_l08, Timestamp, 8, 10);
+decode_total!(c09_cluster_total_l02, ClusterId, 2, 4);
+
+// ---- SyncStateV1 (hand-written; array-backed HashMap stand-in) -------------------------------
+decode_total!(c09_state_total_l37, SyncStateV1, 37, 6);
+// heads = {} (bytes 16..20 = 0): lands in the need / partial_need readers
+decode_total!(c09_state_need_total_l61, SyncStateV1, 61, 6,
+    prefix = [0,0,0,0,0,0,0,0,0,0,0,0,0,0,0,0, 0,0,0,0]);
+
+// ---- whole wire messages: concrete variant-selecting prefix, symbolic remainder --------------
+// UniPayload::V1 { data: Broadcast(Change(ChangeV1 { actor_id, changeset })), cluster_id }
+decode_total!(c09_unipayload_total, UniPayload, 12 + 16 + 26 + 2, 6,
+    prefix = [0,0,0,0, 0,0,0,0, 0,0,0,0]);
+// SyncMessage::V1(Request([(actor, [need])]))
+decode_total!(c09_syncmessage_request_total, SyncMessage, 8 + 4 + 16 + 4 + 17, 6,
+    prefix = [0,0,0,0, 4,0,0,0, 1,0,0,0, 0,0,0,0,0,0,0,0,0,0,0,0,0,0,0,0, 1,0,0,0]);
+// SyncMessage::V1(Changeset(ChangeV1 {..}))
+decode_total!(c09_syncmessage_changeset_total, SyncMessage, 8 + 16 + 26, 6,
+    prefix = [0,0,0,0, 1,0,0,0]);
+
+// ---------------------------------------------------------------------------------------------
+// round trips: decode(encode(v)) == v
+// ---------------------------------------------------------------------------------------------
+
+fn any_range_v() -> RangeInclusive<CrsqlDbVersion> {
+    CrsqlDbVersion(kani::any())..=CrsqlDbVersion(kani::any())
+}
+fn any_range_s() -> RangeInclusive<CrsqlSeq> {
+    CrsqlSeq(kani::any())..=CrsqlSeq(kani::any())
+}
+fn any_ts() -> Timestamp {
+    Timestamp(NTP64(kani::any()))
+}
+fn any_opt_ts() -> Option<Timestamp> {
+    if kani::any() {
+        Some(any_ts())
+    } else {
+        None
+    }
+}
+fn same_ts(a: &Timestamp, b: &Timestamp) -> bool {
+    a.0 .0 == b.0 .0
+}
+
+#[kani::proof]
+#[kani::unwind(6)]
+#[kani::stub(alloc::fmt::format, stub_format)]
+fn c09_need_roundtrip() {
+    let which: u8 = kani::any();
+    kani::assume(which < 3);
+    let v = match which {
+        0 => SyncNeedV1::Full { versions: any_range_v() },
+        1 => {
+            let n: usize = kani::any();
+            kani::assume(n <= 2);
+            let mut seqs = Vec::new();
+            let mut i = 0;
+            while i < n {
+                seqs.push(any_range_s());
+                i += 1;
+            }
+            SyncNeedV1::Partial { version: CrsqlDbVersion(kani::any()), seqs }
+        }
+        _ => SyncNeedV1::Empty { ts: any_opt_ts() },
+    };
+    let bytes = match <SyncNeedV1 as Writable<LE>>::write_to_vec(&v) {
+        Ok(b) => b,
+        Err(_) => {
+            assert!(false, "encode failed");
+            return;
+        }
+    };
+    match <SyncNeedV1 as Readable<LE>>::read_from_buffer(&bytes) {
+        Ok(d) => {
+            let same = match (&v, &d) {
+                (SyncNeedV1::Full { versions: a }, SyncNeedV1::Full { versions: b }) => a == b,
+                (SyncNeedV1::Partial { version: a, seqs: x }, SyncNeedV1::Partial { version: b, seqs: y }) => {
+                    a == b && x.len() == y.len() && (x.len() < 1 || x[0] == y[0]) && (x.len() < 2 || x[1] == y[1])
+                }
+                (SyncNeedV1::Empty { ts: a }, SyncNeedV1::Empty { ts: b }) => match (a, b) {
+                    (None, None) => true,
+                    (Some(a), Some(b)) => same_ts(a, b),
+                    _ => false,
+                },
+                _ => false,
+            };
+            assert!(same, "C09-RT: SyncNeedV1 does not round-trip");
+            core::mem::forget(d);
+        }
+        Err(_) => {
+            assert!(false, "C09-RT: encoded SyncNeedV1 does not decode");
+        }
+    }
+    kani::cover!(which == 1, "partial variant");
+    core::mem::forget(v);
+    core::mem::forget(bytes);
+}
+
+#[kani::proof]
+#[kani::unwind(6)]
+#[kani::stub(alloc::fmt::format, stub_format)]
+fn c09_changeset_roundtrip_empty_variants() {
+    let which: u8 = kani::any();
+    kani::assume(which < 2);
+    let v = match which {
+        0 => Changeset::Empty { versions: any_range_v(), ts: any_opt_ts() },
+        _ => {
+            let n: usize = kani::any();
+            kani::assume(n <= 2);
+            let mut versions = Vec::new();
+            let mut i = 0;
+            while i < n {
+                versions.push(any_range_v());
+                i += 1;
+            }
+            Changeset::EmptySet { versions, ts: any_ts() }
+        }
+    };
+    let bytes = match <Changeset as Writable<LE>>::write_to_vec(&v) {
+        Ok(b) => b,
+        Err(_) => {
+            assert!(false, "encode failed");
+            return;
+        }
+    };
+    match <Changeset as Readable<LE>>::read_from_buffer(&bytes) {
+        Ok(d) => {
+            let same = match (&v, &d) {
+                (Changeset::Empty { versions: a, ts: t }, Changeset::Empty { versions: b, ts: u }) => {
+                    a == b
+                        && match (t, u) {
+                            (None, None) => true,
+                            (Some(a), Some(b)) => same_ts(a, b),
+                            _ => false,
+                        }
+                }
+                (Changeset::EmptySet { versions: x, ts: t }, Changeset::EmptySet { versions: y, ts: u }) => {
+                    same_ts(t, u) && x.len() == y.len() && (x.len() < 1 || x[0] == y[0]) && (x.len() < 2 || x[1] == y[1])
+                }
+                _ => false,
+            };
+            assert!(same, "C09-RT: Changeset does not round-trip");
+            core::mem::forget(d);
+        }
+        Err(_) => {
+            assert!(false, "C09-RT: encoded Changeset does not decode");
+        }
+    }
+    core::mem::forget(v);
+    core::mem::forget(bytes);
+}
+
+/// SqliteValue: every integer, every f64 bit pattern (NaN compared by bits), text / blob <= 2 bytes
+#[kani::proof]
+#[kani::unwind(8)]
+#[kani::stub(alloc::fmt::format, stub_format)]
+fn c09_value_roundtrip() {
+    let which: u8 = kani::any();
+    kani::assume(which < 5);
+    let v = match which {
+        0 => SqliteValue::Null,
+        1 => SqliteValue::Integer(kani::any()),
+        2 => SqliteValue::Real(Real(f64::from_bits(kani::any()))),
+        3 => {
+            // ASCII text of 0..=2 bytes (valid UTF-8 by construction)
+            let n: usize = kani::any();
+            kani::assume(n <= 2);
+            let a: u8 = kani::any();
+            let b: u8 = kani::any();
+            kani::assume(a < 0x80 && b < 0x80);
+            let bytes = [a, b];
+            let s = match core::str::from_utf8(&bytes[..n]) {
+                Ok(s) => s,
+                Err(_) => return,
+            };
+            SqliteValue::Text(CompactString::new(s))
+        }
+        _ => {
+            let n: usize = kani::any();
+            kani::assume(n <= 2);
+            let bytes: [u8; 2] = kani::any();
+            SqliteValue::Blob(SmallVec::from_slice(&bytes[..n]))
+        }
+    };
+    let enc = match <SqliteValue as Writable<LE>>::write_to_vec(&v) {
+        Ok(b) => b,
+        Err(_) => {
+            assert!(false, "encode failed");
+            return;
+        }
+    };
+    match <SqliteValue as Readable<LE>>::read_from_buffer(&enc) {
+        Ok(d) => {
+            let same = match (&v, &d) {
+                (SqliteValue::Null, SqliteValue::Null) => true,
+                (SqliteValue::Integer(a), SqliteValue::Integer(b)) => a == b,
+                (SqliteValue::Real(a), SqliteValue::Real(b)) => a.0.to_bits() == b.0.to_bits(),
+                (SqliteValue::Text(a), SqliteValue::Text(b)) => {
+                    let (x, y) = (a.as_bytes(), b.as_bytes());
+                    x.len() == y.len() && (x.len() < 1 || x[0] == y[0]) && (x.len() < 2 || x[1] == y[1])
+                }
+                (SqliteValue::Blob(a), SqliteValue::Blob(b)) => {
+                    a.len() == b.len() && (a.len() < 1 || a[0] == b[0]) && (a.len() < 2 || a[1] == b[1])
+                }
+                _ => false,
+            };
+            assert!(same, "C09-RT: SqliteValue does not round-trip");
+            core::mem::forget(d);
+        }
+        Err(_) => {
+            assert!(false, "C09-RT: encoded SqliteValue does not decode");
+        }
+    }
+    core::mem::forget(v);
+    core::mem::forget(enc);
+}
+
+#[kani::proof]
+#[kani::unwind(18)]
+#[kani::stub(alloc::fmt::format, stub_format)]
+fn c09_ids_roundtrip() {
+    let a = ActorId(Uuid::from_bytes(kani::any()));
+    let enc = <ActorId as Writable<LE>>::write_to_vec(&a).unwrap();
+    assert!(enc.len() == 16);
+    let d = <ActorId as Readable<LE>>::read_from_buffer(&enc).unwrap();
+    assert!(d.to_bytes() == a.to_bytes());
+    let c = ClusterId(kani::any());
+    let enc2 = <ClusterId as Writable<LE>>::write_to_vec(&c).unwrap();
+    let d2 = <ClusterId as Readable<LE>>::read_from_buffer(&enc2).unwrap();
+    assert!(d2.0 == c.0);
+    let t = any_ts();
+    let enc3 = <Timestamp as Writable<LE>>::write_to_vec(&t).unwrap();
+    let d3 = <Timestamp as Readable<LE>>::read_from_buffer(&enc3).unwrap();
+    assert!(same_ts(&t, &d3));
+    let v = CrsqlDbVersion(kani::any());
+    let enc4 = <CrsqlDbVersion as Writable<LE>>::write_to_vec(&v).unwrap();
+    assert!(<CrsqlDbVersion as Readable<LE>>::read_from_buffer(&enc4).unwrap() == v);
+    let s = CrsqlSeq(kani::any());
+    let enc5 = <CrsqlSeq as Writable<LE>>::write_to_vec(&s).unwrap();
+    assert!(<CrsqlSeq as Readable<LE>>::read_from_buffer(&enc5).unwrap() == s);
+    core::mem::forget((enc, enc2, enc3, enc4, enc5));
+}
+
+// ---------------------------------------------------------------------------------------------
+// packed primary keys
+// ---------------------------------------------------------------------------------------------
+
+/// reference: minimal number of bytes whose big-endian unsigned value equals `v as u64`
+fn ref_int_bytes(v: i64) -> u8 {
+    let u = v as u64;
+    let mut n = 8u8;
+    while n > 0 && (u >> ((n as u32 - 1) * 8)) & 0xff == 0 {
+        n -= 1;
+    }
+    n
+}
+
+#[kani::proof]
+fn c09_num_bytes_needed_minimal() {
+    let v: i64 = kani::any();
+    let n = num_bytes_needed_i64(v);
+    assert!(n == ref_int_bytes(v), "C09-PACK: integer byte count is not the extension's minimal count");
+    let w: i32 = kani::any();
+    let m = num_bytes_needed_i32(w);
+    assert!(m <= 4);
+    assert!(m == ref_int_bytes((w as u32) as i64));
+}
+
+/// every i64 key survives pack -> unpack; the packed bytes follow the extension's layout:
+/// [ncols][type | nbytes<<3][big-endian minimal bytes]
+#[kani::proof]
+#[kani::unwind(12)]
+#[kani::stub(alloc::fmt::format, stub_format)]
+fn c09_pack_unpack_integer() {
+    let v: i64 = kani::any();
+    let packed = match pack_columns(&[SqliteValue::Integer(v)]) {
+        Ok(p) => p,
+        Err(_) => {
+            assert!(false, "pack failed");
+            return;
+        }
+    };
+    let n = ref_int_bytes(v) as usize;
+    assert!(packed.len() == 2 + n, "C09-PACK: layout length");
+    assert!(packed[0] == 1 && packed[1] == ((n as u8) << 3 | 1), "C09-PACK: header bytes");
+    let mut i = 0;
+    while i < n {
+        assert!(packed[2 + i] == ((v as u64) >> (8 * (n - 1 - i))) as u8, "C09-PACK: big-endian payload");
+        i += 1;
+    }
+    match unpack_columns(&packed) {
+        Ok(cols) => {
+            assert!(cols.len() == 1);
+            match cols[0].0 {
+                ValueRef::Integer(d) => {
+                    assert!(d == v, "C09-PACK: packed integer key does not unpack to the same value")
+                }
+                _ => {
+                    assert!(false, "C09-PACK: wrong column type")
+                }
+            }
+            core::mem::forget(cols);
+        }
+        Err(_) => {
+            assert!(false, "C09-PACK: packed key does not unpack");
+        }
+    }
+    kani::cover!(n == 1 && v >= 128, "one byte with the top bit set");
+    kani::cover!(v < 0, "negative key");
+    kani::cover!(v == 0, "zero key");
+    core::mem::forget(packed);
+}
+
+#[kani::proof]
+#[kani::unwind(12)]
+#[kani::stub(alloc::fmt::format, stub_format)]
+fn c09_pack_unpack_mixed() {
+    // real (every bit pattern), null, text and blob of <= 2 bytes, two columns
+    let f = f64::from_bits(kani::any());
+    let n: usize = kani::any();
+    kani::assume(n <= 2);
+    let raw: [u8; 2] = kani::any();
+    let as_text: bool = kani::any();
+    let second = if as_text {
+        kani::assume(raw[0] < 0x80 && raw[1] < 0x80);
+        SqliteValue::Text(CompactString::new(core::str::from_utf8(&raw[..n]).unwrap()))
+    } else {
+        SqliteValue::Blob(SmallVec::from_slice(&raw[..n]))
+    };
+    let cols_in = [SqliteValue::Real(Real(f)), SqliteValue::Null, second];
+    let packed = match pack_columns(&cols_in) {
+        Ok(p) => p,
+        Err(_) => {
+            assert!(false, "pack failed");
+            return;
+        }
+    };
+    match unpack_columns(&packed) {
+        Ok(cols) => {
+            assert!(cols.len() == 3);
+            match cols[0].0 {
+                ValueRef::Real(d) => {
+                    assert!(d.to_bits() == f.to_bits())
+                }
+                _ => {
+                    assert!(false)
+                }
+            }
+            assert!(matches!(cols[1].0, ValueRef::Null));
+            match (cols[2].0, as_text) {
+                (ValueRef::Text(b), true) | (ValueRef::Blob(b), false) => {
+                    assert!(b.len() == n && (n < 1 || b[0] == raw[0]) && (n < 2 || b[1] == raw[1]))
+                }
+                _ => {
+                    assert!(false, "C09-PACK: wrong column type")
+                }
+            }
+            core::mem::forget(cols);
+        }
+        Err(_) => {
+            assert!(false, "C09-PACK: packed key does not unpack");
+        }
+    }
+    core::mem::forget(packed);
+    core::mem::forget(cols_in);
+}
+
+/// more than 255 key columns cannot be packed: error, not truncation
+#[kani::proof]
+#[kani::unwind(3)]
+#[kani::stub(alloc::fmt::format, stub_format)]
+fn c09_pack_too_many_columns_is_error() {
+    let cols: [SqliteValue; 256] = [const { SqliteValue::Null }; 256];
+    assert!(pack_columns(&cols).is_err());
+    core::mem::forget(cols);
+}
+
+macro_rules! unpack_total {
+    ($name:ident, $len:expr) => {
+        #[kani::proof]
+        #[kani::unwind(12)]
+        #[kani::stub(alloc::fmt::format, stub_format)]
+        fn $name() {
+            let buf: [u8; $len] = kani::any();
+            // arbitrary bytes (e.g. a corrupted or hostile key): must return Ok or Err
+            let r = unpack_columns(&buf);
+            kani::cover!(r.is_err(), "some input is rejected");
+            core::mem::forget(r);
+        }
+    };
+}
+unpack_total!(c09_unpack_total_l00, 0);
+unpack_total!(c09_unpack_total_l01, 1);
+unpack_total!(c09_unpack_total_l02, 2);
+unpack_total!(c09_unpack_total_l04, 4);
+unpack_total!(c09_unpack_total_l11, 11);
